@@ -90,6 +90,54 @@ func render(blocks []*cm.RootBlock, refs cm.ReferenceMap, c config) string {
 	return buf.String()
 }
 
+// plainSlowWriter has no method but Write; it copies what it is given and
+// yields the processor, so that calls overlap.
+type plainSlowWriter struct{ b []byte }
+
+func (w *plainSlowWriter) Write(p []byte) (int, error) {
+	w.b = append(w.b, p...)
+	runtime.Gosched()
+	return len(p), nil
+}
+
+// sharedOpts is one WalkOptions value used by every goroutine. Its callbacks
+// keep no state: they only check that the cursor they are given is consistent
+// (the parent's child at the index is the node) and report through a channel
+// that is read after the walk.
+var sharedBad = make(chan string, 64)
+
+var sharedOpts = &cm.WalkOptions{
+	Pre: func(c *cm.Cursor) bool {
+		if c.Index() >= 0 && c.Parent().Child(c.Index()) != c.Node() {
+			select {
+			case sharedBad <- "Pre: Parent().Child(Index()) != Node()":
+			default:
+			}
+		}
+		runtime.Gosched()
+		return true
+	},
+	Post: func(c *cm.Cursor) bool {
+		if c.Index() >= 0 && c.Parent().Child(c.Index()) != c.Node() {
+			select {
+			case sharedBad <- "Post: Parent().Child(Index()) != Node()":
+			default:
+			}
+		}
+		return true
+	},
+}
+
+func sharedWalk(n cm.Node, opts *cm.WalkOptions) string {
+	cm.Walk(n, opts)
+	select {
+	case s := <-sharedBad:
+		return s
+	default:
+		return ""
+	}
+}
+
 type failingWriter struct{}
 
 func (failingWriter) Write(p []byte) (int, error) { return 0, fmt.Errorf("writer failed") }
@@ -373,9 +421,23 @@ func runBatch(inputs [][]byte, goroutines int) error {
 				if b.String() != wantFormat {
 					errs <- fmt.Errorf("concurrent Format differs from the sequential result")
 				}
+				// and into a writer that has no method but Write (and yields inside it)
+				var pw plainSlowWriter
+				format.Format(&pw, blocks)
+				if string(pw.b) != wantFormat {
+					errs <- fmt.Errorf("concurrent Format into a plain io.Writer differs from the sequential result")
+				}
 			case 1:
 				if walkSig(blocks) != wantWalk {
 					errs <- fmt.Errorf("concurrent Walk differs from the sequential result")
+				}
+				// walks that share one WalkOptions value (options are configuration;
+				// the position of a walk belongs to the walk)
+				for _, b := range blocks {
+					if bad := sharedWalk(b.AsNode(), sharedOpts); bad != "" {
+						errs <- fmt.Errorf("concurrent Walk calls sharing one WalkOptions value: %s", bad)
+						break
+					}
 				}
 			case 2:
 				var dst []byte
